@@ -434,6 +434,13 @@ def make_configs(tier, rnd):
         m = rnd.choice([1, 1, 2])
         tt = [[rnd.choice([0, 1, 0, 1, "*"]) for _ in range(8)] for _ in range(m)]
         cfgs.append(dict(tt=tt, r=rnd.randint(1, 3), basis=rnd.choice(bases + CUSTOM[:2]), norm=rnd.random() < 0.2))
+    # n = 4 (thorough only): 16 rows, r <= 3
+    if thorough:
+        for _ in range(60):
+            tt = [[rnd.choice([0, 1, 0, 1, "*", "*"]) for _ in range(16)]]
+            r4 = rnd.randint(1, 3)
+            cfgs.append(dict(tt=tt, r=r4, basis=rnd.choice(bases[:3]), norm=rnd.random() < 0.2,
+                             constraints=random_constraints(rnd, 4, r4)[:1] if rnd.random() < 0.3 else []))
     # constraints: each kind alone, then seeded combinations
     for kind in ["fix-both", "fix-first", "fix-second", "fix-type", "forbid"]:
         for _ in range(60 if thorough else 14):
@@ -465,7 +472,7 @@ def run(rep, tier, seed, only=None):
     rep.functions = ["CircuitFinderSat.__init__ / get_cnf / _init_default_cnf_formula / _add_exactly_one_of / _is_dont_cares_input",
                      "fix_gate / forbid_wire / need_normalized", "find_circuit (plain and time_limit via pebble) / _solve_cnf / _get_circuit_by_model / _tt_to_gate_type",
                      "Operation / Basis / resolve_basis"]
-    rep.bounds = {"inputs": "n<=3", "outputs": "<=2", "gate budget": "r<=4 (n=3: r<=3)", "bases": "AIG/XAIG/FULL as enum and str + 7 custom operation lists",
+    rep.bounds = {"inputs": "n<=3 (thorough: 60 configurations with n=4, r<=3)", "outputs": "<=2", "gate budget": "r<=4 (n=3: r<=3)", "bases": "AIG/XAIG/FULL as enum and str + 7 custom operation lists",
                   "don't-cares": "every pattern for n<=2 with one output; seeded otherwise", "constraints": "none, each kind alone, seeded combinations (<=2)"}
     rep.outside = ["the circuit_db shortcut (excluded by the property)", "r > 4, n > 3", "real PySAT solvers (stub: z3, contract sound+complete)"]
     rep.rule = "case = configuration (model table, budget, basis, normalisation, constraints); the candidate netlist and all value variables are quantified by z3"
